@@ -76,7 +76,7 @@ PROPS = {
     ),
     "C05": dict(
         module="OrbitModel.Properties.C05",
-        theorems=["Orbit.C05.persistence_order_tied_to_go_text", "Orbit.C05.acknowledged_survive_any_crash", "Orbit.C05.cached_heads_cover_the_log"],
+        theorems=["Orbit.C05.reload_sources_tied_to_go_text", "Orbit.C05.persistence_order_tied_to_go_text", "Orbit.C05.acknowledged_survive_any_crash", "Orbit.C05.cached_heads_cover_the_log"],
         families=[("routes", 100, 3000, 14), ("kv", 40, 1000, 12), ("reload", 40, 1000, 12)],
         corr_fields={"values", "heads", "idx", "len", "local", "remote", "load"},
         nontrivial=lambda lines: any(l.startswith("restarted ") for l in lines) and sum(1 for l in lines if l.startswith("entry ")) >= 2,
